@@ -192,6 +192,22 @@ PROPS = {
         trusted_base=[GO_LIBS, "gopacket", "go-pfcp IE codecs", "fake BESS server, unixpacket socket"],
         assumptions=["FAR IDs distinct within one message", "BESS datapath"],
     ),
+    "C02": dict(
+        lean=["Upf.Props.C02"],
+        level="proof",
+        claim="For every world, association and request of the agent model: every establishment reply is addressed to the request's CP SEID; a reply carrying "
+              "a UP F-SEID is accepted, carries exactly the SEID the session is stored under; deletion/modification of an unknown session is rejected with "
+              "SEID 0 and changes nothing; accepted deletion is addressed to the stored CP SEID. 'Exactly one response of the matching type with the request's "
+              "sequence number, responses never answered' is structural in the model and COUNTED on the peer socket of the real agent for every request "
+              "type (heartbeat, association setup/release, PFD management, session establishment/modification/deletion) and 7 response types.",
+        note="partial: byte-level header encoding and message typing are go-pfcp's; the association-level handlers (heartbeat, setup, release, PFD) are "
+             "modelled only as far as the store and application table go. Trusted: Lean kernel + standard axioms, go-pfcp, loopback UDP.",
+        rule="300+ requests over 3 associations with interleaved sessions: all request types, sequence numbers from {1,2,2^23,2^24-1,...,random 24-bit}, accepted and "
+             "rejected mixes (wrong node ID, unknown / foreign session, unknown Remove ID, malformed PFD), CP F-SEID changes, releases and re-associations, "
+             "response-type messages; non-trivial = an accepted request or an answered heartbeat",
+        trusted_base=[GO_LIBS, "go-pfcp codecs", "loopback UDP sockets", "fake BESS server"],
+        assumptions=["mandatory IEs well-formed (malformed ones are C01's)"],
+    ),
 }
 
 NOT_APPLICABLE = {}
